@@ -61,6 +61,7 @@ SPECS = [
     ("y ~ bs(x, df=4) + poly(z, 2) + C(f, Sum) + (f|g)", "b"),
     ("y ~ 0 + z + scale(x):f + (scale(x)|g)", "a"),
     ("y ~ center(xc) + scale(xc):f + (center(xc)|g)", "a"),
+    ("y ~ f + scale(x) + (0 + center(x)|g)", "a"),  # same term names as specs 0 and 3, at other column offsets
 ]
 
 
